@@ -182,10 +182,17 @@ def dqrepr(s):
     """Returns a repr() of s guaranteed to be in double quotes."""
     # The wankers-that-be decided not to use double-quotes anymore in 2.3.
     # return '"' + repr("'\x00" + s)[6:]
-    encoding = 'string_escape' if minisix.PY2 else 'unicode_escape'
-    if minisix.PY2 and isinstance(s, unicode):
-        s = s.encode('utf8', 'replace')
-    return '"%s"' % s.encode(encoding).decode().replace('"', '\\"')
+    if minisix.PY2:
+        if isinstance(s, unicode):
+            s = s.encode('utf8', 'replace')
+        return '"%s"' % s.encode('string_escape').decode().replace('"', '\\"')
+    # Only ASCII is escaped; the rest is left as it is.  The tokenizer reads
+    # \xNN escapes of the Latin-1 range back as UTF-8 bytes (so that
+    # '\xc3\xa9' would come back as 'é' instead of 'Ã©'), whereas raw text
+    # always comes back unchanged.
+    escaped = ''.join([c if ord(c) > 0x7f else c.encode('unicode_escape').decode()
+                       for c in s])
+    return '"%s"' % escaped.replace('"', '\\"')
 
 def quoted(s):
     """Returns a quoted s."""
